@@ -446,3 +446,87 @@ Theorem C15_decrypt_ignores_cipher :
     (forall kp pw, pbkdf2_decrypt P (TotalProofs8.set_cipher c s) kp pw = pbkdf2_decrypt P c kp pw).
 Proof. exact TotalProofs8.decrypt_ignores_cipher. Qed.
 Print Assumptions C15_decrypt_ignores_cipher.
+
+(* ---------------- wave 6: structure malformations one and two levels deeper, on the JSON tree ----------------
+   (closes most of the `partial` entry "structure disjunct": the predicates below are syntactic -- member
+   names matched the way encoding/json matches them, JSON kinds, hexadecimal / integer-literal text -- and
+   do not mention the model's decoder; no hypothesis on the primitives, no cost cap) *)
+From FFS Require Keystore.DeepKinds Keystore.TotalProofs9.
+
+(* a member cipher / ciphertext / cipherparams (incl. its iv) / kdf / mac of the crypto object with the
+   wrong JSON kind, or not hexadecimal where hexadecimal is required: an error *)
+Theorem C15_crypto_member_rejected :
+  forall (P : prims) (ms : list (bytes * json)) (pw : bytes),
+    existsb DeepKinds.bad_crypto_top ms = true -> exists e, read_wallet_tree P (JObj ms) pw = Err e.
+Proof. exact TotalProofs9.crypto_member_rejected. Qed.
+Print Assumptions C15_crypto_member_rejected.
+
+(* kdfparams not an object; dklen not an int64 integer literal; salt not a hexadecimal string: an error
+   whatever kdf, id, version and password are *)
+Theorem C15_kdfparams_rejected :
+  forall (P : prims) (ms : list (bytes * json)) (pw : bytes),
+    existsb (DeepKinds.bad_kdfparams_top DeepKinds.bad_kdfparam_common) ms = true ->
+    exists e, read_wallet_tree P (JObj ms) pw = Err e.
+Proof. exact TotalProofs9.kdfparams_rejected. Qed.
+Print Assumptions C15_kdfparams_rejected.
+
+(* the members only one KDF struct has (n, r, p / c, prf), at the function that decodes that struct *)
+Theorem C15_scrypt_kdfparams_rejected :
+  forall (P : prims) (ms : list (bytes * json)) (pw : bytes) (md : option jmap),
+    existsb (DeepKinds.bad_kdfparams_top DeepKinds.bad_kdfparam_scrypt) ms = true ->
+    exists e, readScryptWalletFile P (JObj ms) pw md = Err e.
+Proof. exact TotalProofs9.scrypt_kdfparams_rejected. Qed.
+Print Assumptions C15_scrypt_kdfparams_rejected.
+
+Theorem C15_pbkdf2_kdfparams_rejected :
+  forall (P : prims) (ms : list (bytes * json)) (pw : bytes) (md : option jmap),
+    existsb (DeepKinds.bad_kdfparams_top DeepKinds.bad_kdfparam_pbkdf2) ms = true ->
+    exists e, readPbkdf2WalletFile P (JObj ms) pw md = Err e.
+Proof. exact TotalProofs9.pbkdf2_kdfparams_rejected. Qed.
+Print Assumptions C15_pbkdf2_kdfparams_rejected.
+
+(* the same for the whole document (not an object, or one of the two kdf-independent families): this
+   predicate is also an oracle on the implementation in Keystore/RunC15.v (code 15) *)
+Theorem C15_deep_struct_rejected :
+  forall (P : prims) (t : json) (pw : bytes),
+    DeepKinds.deep_struct_bad t = true -> exists e, read_wallet_tree P t pw = Err e.
+Proof. exact TotalProofs9.deep_struct_rejected. Qed.
+Print Assumptions C15_deep_struct_rejected.
+
+(* the KDF-specific members for the whole read path, without naming the file's kdf: a file that is read,
+   and read as a scrypt (PBKDF2) wallet, has no wrong-kind / non-integer / non-hex member of that KDF's
+   kdfparams struct *)
+Theorem C15_accepted_kdfparams_clean :
+  forall (P : prims) (ms : list (bytes * json)) (pw : bytes) (w : wallet),
+    read_wallet_tree P (JObj ms) pw = Ok w ->
+    match w_kdfparams w with
+    | KScrypt _ => existsb (DeepKinds.bad_kdfparams_top DeepKinds.bad_kdfparam_scrypt) ms = false
+    | KPbkdf2 _ => existsb (DeepKinds.bad_kdfparams_top DeepKinds.bad_kdfparam_pbkdf2) ms = false
+    end.
+Proof. exact TotalProofs9.accepted_kdfparams_clean. Qed.
+Print Assumptions C15_accepted_kdfparams_clean.
+
+(* non-vacuity: every family holds on a concrete mutation of a file that is read (wrong kind, non-hex,
+   odd-length hex, fraction, exponent, 2^63, a later duplicate crypto object, letter case), none on the good
+   files; a wrong-kind n in a PBKDF2 file is NOT claimed and that file is indeed read *)
+Example C15_deep_structure_nonvacuous :
+  let bc t := existsb DeepKinds.bad_crypto_top (TotalProofs9.top_members t) in
+  let bk t := existsb (DeepKinds.bad_kdfparams_top DeepKinds.bad_kdfparam_common) (TotalProofs9.top_members t) in
+  let bs t := existsb (DeepKinds.bad_kdfparams_top DeepKinds.bad_kdfparam_scrypt) (TotalProofs9.top_members t) in
+  let bp t := existsb (DeepKinds.bad_kdfparams_top DeepKinds.bad_kdfparam_pbkdf2) (TotalProofs9.top_members t) in
+  bc good = false /\ bk good = false /\ bp good = false /\ bs (toy_scrypt "4" "1" "1") = false /\
+  cls (read_wallet_tree toy good []) = 0%nat /\ cls (read_wallet_tree toy (toy_scrypt "4" "1" "1") []) = 0%nat /\
+  bc (TotalProofs9.with_crypto_member "mac" (JStr (k "0g")) good) = true /\
+  bc (TotalProofs9.with_crypto_member "ciphertext" (JStr (k "0x012")) good) = true /\
+  bc (TotalProofs9.with_crypto_member "cipherparams" (JObj [(k "IV", JNum (k "0"))]) good) = true /\
+  bc (JObj (TotalProofs9.top_members good ++ [(k "CRYPTO", JObj [(k "Mac", JBool false)])])) = true /\
+  bk (TotalProofs9.with_crypto_member "kdfparams" (JArr []) good) = true /\
+  bk (TotalProofs8.with_kdfparam "dklen" (JNum (k "32.0")) (toy_scrypt "4" "1" "1")) = true /\
+  bk (TotalProofs8.with_kdfparam "dklen" (JNum (k "9223372036854775808")) (toy_scrypt "4" "1" "1")) = true /\
+  bk (TotalProofs8.with_kdfparam "salt" (JStr (k "0")) (toy_scrypt "4" "1" "1")) = true /\
+  bs (TotalProofs8.with_kdfparam "r" (JNum (k "1e0")) (toy_scrypt "4" "1" "1")) = true /\
+  bp (TotalProofs8.with_kdfparam "c" (JNum (k "0.5")) good) = true /\
+  bp (TotalProofs8.with_kdfparam "prf" (JNum (k "1")) good) = true /\
+  cls (read_wallet_tree toy (TotalProofs9.with_crypto_member "mac" (JStr (k "0g")) good) []) = 1%nat /\
+  cls (read_wallet_tree toy (TotalProofs8.with_kdfparam "dklen" (JNum (k "32.0")) (toy_scrypt "4" "1" "1")) []) = 1%nat.
+Proof. vm_compute. repeat split; reflexivity. Qed.
